@@ -125,10 +125,11 @@ def run(F, chk):
     check_marker(F, G4, sf)
     G9 = chk.rule('G9', 'both matchers quantify over a filter collection only with `any` (some positive / no negative / some event filter matches), never all/find/count')
     check_quantifiers(F, G9, sf)
+    G10 = chk.rule('G10', '`filters_active` (the gate in front of match_filters for remote streams) is computed from every filter kind that match_filters consults')
+    check_active_shortcut(F, G10)
 
 
 ALL_KINDS = frozenset(['Positive', 'Negative', 'Marker', 'Event'])
-
 
 def closure_predicate(F, cl):
     """(requires_enabled, admitted kinds) of a tiny selection closure over a filter reference, or None if not recognised.
@@ -449,3 +450,101 @@ def check_quantifiers(F, G9, sf):
                              (b.path, m, kind.group(1) if kind else 'selected', b.loc(t.sp), m), where=b.loc(t.sp))
     G9.floor('quantifications over filter collections with Filter::matches', n, 2)
     G9.floor('deciding functions (filter stage, match_filters) containing such a quantification', len(deciding), 2)
+
+
+# ---------------------------------------------------------------------------------------------
+# G10: the "any filter active" shortcut covers every kind the matcher consults
+
+def kinds_indexed(F, b, E, only_blocks=None):
+    """FilterKind constants used to index a FilterKindContainer in body b (and its closures): {kind: block}"""
+    out = {}
+    bodies = [b] + list(F.closures_of(b.path))
+    for x in bodies:
+        Ex = E if x is b else ExprBuilder(CFG(x), fold_named=True)
+        for blk in x.calls():
+            t = blk.term
+            if re.search(r'::(index|index_mut)$', t.callee.path) and len(t.args) > 1 and FKC in (t.args[0].ty or ''):
+                m = re.search(r'FilterKind::(\w+)\{', show(Ex.operand(t.args[1])))
+                if m:
+                    out.setdefault(m.group(1), []).append((x, blk))
+    return out
+
+
+def check_active_shortcut(F, G10):
+    """remote streams call match_filters only when `filters_active`; so that flag must be computed from (at least) every
+    filter kind that match_filters consults, otherwise a filter set consisting only of the forgotten kind is ignored"""
+    from prov import Prov
+    mf = F.get('adlt::utils::remote_utils::match_filters')
+    if mf is None:
+        G10.violation(('anchor-lost', 'match_filters'), 'match_filters not found')
+        return
+    G10.fn(mf.path)
+    consulted = set(kinds_indexed(F, mf, ExprBuilder(CFG(mf), fold_named=True)).keys())
+    G10.floor('filter kinds consulted by match_filters', len(consulted), 3)
+    n = 0
+    for b in F.order:
+        if b.crate != 'lib' or b.kind == 'closure':
+            continue
+        stores = []
+        for blk in b.blocks:
+            if blk.cleanup:
+                continue
+            for s in blk.stmts:
+                if s.k != 'assign':
+                    continue
+                if s.place.is_local and b.name_of(s.place.l) == 'filters_active':
+                    stores.append((blk, s))
+        if not stores:
+            continue
+        cfg = CFG(b)
+        E = ExprBuilder(cfg, fold_named=True)
+        pr = Prov(cfg)
+        idx = kinds_indexed(F, b, E)
+        # kinds whose indexed collection flows into the stored flag
+        for (blk, s) in stores:
+            if s.rv['k'] == 'use' and Operand(s.rv['o']).is_const:
+                continue
+            n += 1
+            G10.sites += 1
+            G10.fn(b.path)
+            toks = set()
+            for o in s.rv_operands():
+                toks |= pr.operand(o, at=blk.i)
+            # the Index::index results are call dests: match provenance by the kinds whose index call block is an ancestor
+            import guards
+            base_known = set(show(c) for (c, truth, D) in guards.known(cfg, E, blk.i))
+
+            def collect(rv, at, depth, seen):
+                # kinds mentioned by the value and - for short-circuit / phi forms - by the definitions of the bool temps it is
+                # built from and the conditions under which those are stored (conditions already known at the flag's own
+                # store do not belong to its computation)
+                ks = set(k for k in idx if ('FilterKind::%s{' % k) in show(E.rvalue(rv)))
+                if depth > 4:
+                    return ks
+                for o in ([Operand(rv['o'])] if rv['k'] in ('use', 'cast') else [Operand(rv[x]) for x in ('a', 'b') if x in rv]):
+                    if o.place is None or not o.place.is_local or o.place.l in seen:
+                        continue
+                    ds = cfg.defs.get(o.place.l, [])
+                    if len(ds) < 2 or b.lty(o.place.l) != 'bool':
+                        continue
+                    seen.add(o.place.l)
+                    for (bi, si, d) in ds:
+                        for (c, truth, D) in guards.known(cfg, E, bi):
+                            sc = show(c)
+                            if sc not in base_known:
+                                ks |= set(k for k in idx if ('FilterKind::%s{' % k) in sc)
+                        if si != 'call':
+                            ks |= collect(d.rv, bi, depth + 1, seen)
+                        else:
+                            ctxt = ' '.join(show(E.operand(a)) for a in d.args)
+                            ks |= set(k for k in idx if ('FilterKind::%s{' % k) in ctxt)
+                return ks
+            used = collect(s.rv, blk.i, 0, set())
+            missing = consulted - used
+            if not missing:
+                G10.ok(sample={'function': b.path, 'flag': 'filters_active', 'computed_from_kinds': sorted(used), 'match_filters_consults': sorted(consulted)})
+            else:
+                G10.violation(('active-flag-misses-kind', b.path, '+'.join(sorted(missing))),
+                              '%s computes `filters_active` at %s from the %s filters only, but match_filters also consults the %s filters: a stream whose filter set has only %s filters is treated as unfiltered' %
+                              (b.path, b.loc(s.sp), '/'.join(sorted(used)) or 'no', '/'.join(sorted(missing)), '/'.join(sorted(missing))), where=b.loc(s.sp))
+    G10.floor('computations of filters_active', n, 1)
